@@ -198,6 +198,12 @@ pub fn check_set_kind(a: u8, k: usize) -> Result<(), String> {
 	if contents(s & KINDS[k]) != only || contents(KINDS[k] & s) != only {
 		return Err(format!("{a:#08b} & {} wrong", NAMES[k]));
 	}
+	// the set's disjunctive rendering as embedded in the crate's own "unexpected kind" error message
+	let msg = json_syntax::Unexpected { expected: s, found: KINDS[k] }.to_string();
+	let want = render(&m, " or ");
+	if !msg.contains(&want) || !msg.contains(NAMES[k]) {
+		return Err(format!("Unexpected {{ expected: {a:#08b}, found: {} }} is rendered {msg:?}, which does not contain the set's disjunction {want:?} and the found kind", NAMES[k]));
+	}
 	let mut x = s;
 	x |= KINDS[k];
 	let mut y = s;
